@@ -41,10 +41,10 @@ ASSUMPTIONS = [
 ]
 REQUIRED = {"all": ["figures", "saved_files", "getfig_returns", "phase_markers_checked", "uversky_markers_checked",
                     "multi_marker_figures", "labels_checked", "label_lists_with_some_empty_entries", "limits_below_one", "region_points_checked",
-                    "linear_bar_figures", "long_linear_plots", "net_negative_uversky_saves", "complexity_bar_figures", "numpy_coordinate_arguments", "coincident_markers", "near_threshold_large_N_cases", "figures_after_unclosed_save", "tiny_linear_plots"]}
+                    "linear_bar_figures", "long_linear_plots", "net_negative_uversky_saves", "complexity_bar_figures", "numpy_coordinate_arguments", "coincident_markers", "near_threshold_large_N_cases", "figures_after_unclosed_save", "tiny_linear_plots", "homopolymer_figures", "homopolymer_corner_figures"]}
 NFIG = {"quick": 640, "thorough": 4000}
 NMAX = {"quick": 40, "thorough": 90}
-LIMS = [1, 1, 0.5, 0.8, 2]
+LIMS = [1, 1, 0.5, 0.8, 2, 0.35, 0.3, 0.1]
 
 _st = {}
 
@@ -129,6 +129,8 @@ def cases(tier, seed):
         yield {"k": "regions", "N": N}
     for N in list(range(NMAX[tier] + 1, 261 if tier == "quick" else 401)) + [300, 340, 360, 400, 660, 700, 1000]:
         yield {"k": "regions", "N": N, "near": True}
+    for letter in "IRDG":
+        yield {"k": "corners", "letter": letter}
     rng = gen.sub_rng(seed, ID)
     for i in range(NFIG[tier]):
         yield {"k": "fig", "o": rng.randrange(1 << 30), "i": i}
@@ -142,9 +144,32 @@ def fresh_canvas(force=False):
     _st["saved"][:] = []
 
 
+def judge_corners(case, rep, S):
+    """Homopolymers of every length 1..45: the corners of both diagrams (a running sum may land one ulp outside [0,1])."""
+    SP = S["SP"]
+    for N in range(1, 46):
+        seq = case["letter"] * N
+        f = SP(seq)
+        o = SP(seq)
+        for kind in ("uversky", "phase"):
+            if kind == "uversky":
+                coords = [(f.get_mean_net_charge(), f.get_uversky_hydropathy())]
+                show = o.show_uverskyPlot
+            else:
+                coords = [(f.get_fraction_positive(), f.get_fraction_negative())]
+                show = o.show_phaseDiagramPlot
+            snap = run_entry(rep, S, show.__name__, lambda: show(getFig=True), None)
+            rep.cnt("homopolymer_corner_figures")
+            if not snap:
+                return
+            check_scatter(rep, snap, kind, show.__name__, coords, None, {}, False)
+
+
 def judge(case, rep, S):
     if case["k"] == "regions":
         judge_regions(case, rep, S)
+    elif case["k"] == "corners":
+        judge_corners(case, rep, S)
     else:
         judge_figure(case, rep, S)
 
@@ -155,7 +180,7 @@ def judge_regions(case, rep, S):
     N = case["N"]
     rng = gen.sub_rng(0, ID, "regions", N)
     polysets = []
-    for lim in [(1, 1), (0.5, 0.5), (0.8, 2), (2, 0.6)]:
+    for lim in [(1, 1), (0.5, 0.5), (0.8, 2), (2, 0.6), (0.3, 1), (1, 0.35), (0.25, 0.25), (0.1, 3)]:
         fresh_canvas(force=True)
         o = SP("G" * N)
         ret = o.show_phaseDiagramPlot(xLim=lim[0], yLim=lim[1], getFig=True)
@@ -308,6 +333,10 @@ def judge_figure(case, rep, S):
     path = os.path.join(_st["tmp"], ["fig_%d.%s", "my figure %d.%s", "fig\u00e9_%d.%s"][case["o"] % 3] % (case["o"] % 5, fmt))
     save = rng.random() < 0.5
     seq = gen.rand_seq(rng, rng.choice(["idp", "polyampholyte", "polyelectrolyte", "uniform", "neutral_rich"]), lo=5, hi=60)
+    if rng.random() < 0.15:
+        # corners of both diagrams: homopolymers (fraction 1 of one charge, hydropathy at either end of the scale)
+        seq = rng.choice("IIRKEDGWV") * rng.randint(5, 45)
+        rep.cnt("homopolymer_figures")
     rep.distinct((family, save, case["o"]))
 
     if family in ("obj_phase", "obj_uversky"):
